@@ -25,8 +25,36 @@ pub mod wi {
         #[archetype_id(255)]
         ecs_archetype!(A255, #[component_id(255)] Z);              // id 255; Z=255
     }
+
+    pub mod zero {
+        use super::{X, Y, Z};
+        use gecs::prelude::*;
+        // explicit ZERO ids on items that are NOT first in their scope
+        ecs_world! {
+            ecs_name!(WZ);
+            #[archetype_id(7)]
+            ecs_archetype!(B7, #[component_id(4)] X, #[component_id(0)] Y, Z);   // id 7; X=4, Y=0, Z=1
+            #[archetype_id(0)]
+            ecs_archetype!(B0, Z, #[component_id(0)] #[cfg(any())] X, Y);        // id 0; Z=0, Y=1 (disabled X consumes nothing)
+            ecs_archetype!(B1, #[component_id(0)] X);                             // id 1 (successor of explicit 0); X=0
+        }
+    }
 }
 use wi::*;
+
+pub fn explicit_zero_ids() {
+    use wi::zero::*;
+    assert!(B7::ARCHETYPE_ID == 7 && B0::ARCHETYPE_ID == 0 && B1::ARCHETYPE_ID == 1, "explicit #[archetype_id(0)] on a non-first archetype");
+    assert!(<B7 as ArchetypeHas<X>>::COMPONENT_ID == 4 && <B7 as ArchetypeHas<Y>>::COMPONENT_ID == 0 && <B7 as ArchetypeHas<Z>>::COMPONENT_ID == 1, "explicit #[component_id(0)] on a non-first component is not honoured");
+    assert!(<B0 as ArchetypeHas<Z>>::COMPONENT_ID == 0 && <B0 as ArchetypeHas<Y>>::COMPONENT_ID == 1 && <B1 as ArchetypeHas<X>>::COMPONENT_ID == 0);
+    assert!(ecs_component_id!(Y, B7) == 0 && ecs_component_id!(Z, B7) == 1);
+    let id = sym::any_u8();
+    match SelectArchetype::try_from(id) {
+        Ok(s) => assert!((id == 7 || id == 0 || id == 1) && s.archetype_id() == id, "SelectArchetype maps an id to another archetype"),
+        Err(_) => assert!(!(id == 7 || id == 0 || id == 1), "SelectArchetype rejects a declared id (ids declared in descending order)"),
+    }
+    cover!(id == 7, "the first-declared, highest id");
+}
 
 pub fn constants_agree() {
     assert!(A0::ARCHETYPE_ID == 0 && A10::ARCHETYPE_ID == 10 && A11::ARCHETYPE_ID == 11 && A4::ARCHETYPE_ID == 4 && A5::ARCHETYPE_ID == 5 && A255::ARCHETYPE_ID == 255, "ARCHETYPE_ID does not follow the discriminant rule");
@@ -74,3 +102,4 @@ pub fn constants_agree() {
 }
 
 harness! { fn c15_constants_agree() unwind(8) { constants_agree() } }
+harness! { fn c15_explicit_zero_ids() unwind(4) { explicit_zero_ids() } }
